@@ -241,7 +241,7 @@ Proof.
     destruct (isnil (filter (impl_available I) x3)); [injection Ht as <-; reflexivity|].
     destruct (isnil (filter (pcipher I) x0)); [injection Ht as <-; reflexivity|discriminate Ht]. }
   match goal with Hp : forallb is_pair x4 = true |- _ =>
-    destruct (filter_range_typed (minVersion c) (maxVersion c) x4 Hp) as [r Er] end.
+    destruct (filter_range_typed (clip_lo (minVersion c)) (maxVersion c) x4 Hp) as [r Er] end.
   rewrite Er in Hc. apply (K r). exact Hc.
 Qed.
 
@@ -328,7 +328,7 @@ Proof.
   { intros y4. rewrite ctail_spec, EE, EC, PC.
     apply negb_true_iff in S1. apply negb_true_iff in S2. rewrite S1, S2. eauto. }
   match goal with Hp : forallb is_pair x4 = true |- _ =>
-    destruct (filter_range_typed (minVersion c) (maxVersion c) x4 Hp) as [r Er] end.
+    destruct (filter_range_typed (clip_lo (minVersion c)) (maxVersion c) x4 Hp) as [r Er] end.
   rewrite Er. apply K.
 Qed.
 End Dom.
